@@ -127,7 +127,9 @@ func (p Polygon) Centroid() Point {
 		a := signedarea(r)
 		cx, cy := 0., 0.
 		if r[len(r)-1] != r[0] {
-			r = append(r, r[0])
+			// (the capacity is clipped so that append copies: the spare capacity
+			// of the caller's slice may be somebody else's data)
+			r = append(r[:len(r):len(r)], r[0])
 		}
 		for i := 0; i < len(r)-1; i++ {
 			x0, y0 := r[i].X-o.X, r[i].Y-o.Y
